@@ -10,7 +10,8 @@ open Gin Gin.AList
 /-- What it means for a key to name a configurable parameter of a registered configurable. -/
 def Bindable (st : State) (k : Key) (full : Sel) : Prop :=
   ∃ e, st.registry.getMatch k.sel = .one full e
-    ∧ e.cfg.mightHave k.arg = true              -- a named parameter (of the undecorated function), or it takes **kwargs
+    ∧ e.cfg.byKeyword k.arg = true              -- a parameter (of the undecorated function) that a keyword can fill
+                                                --   (not a positional-only one: D56), or it takes **kwargs
     ∧ e.cfg.listed k.arg = true                 -- inside the allowlist / outside the denylist
     ∧ (e.cfg.isMethod = true → 2 ≤ k.sel.length) -- a method is addressed through its class
 
@@ -136,12 +137,36 @@ theorem method_needs_class (st : State) (k : Key) (full : Sel) (e : Entry)
     the `__wrapped__` chain might have it. -/
 theorem decorator_does_not_widen (st : State) (k : Key) (full : Sel) (e : Entry) (inner : Sig)
     (hm : st.registry.getMatch k.sel = .one full e) (hin : e.cfg.innerSig = some inner)
-    (hno : inner.mightHave k.arg = false) : st.parseKey k = .error .valueError := by
+    (hno : inner.byKeyword k.arg = false) : st.parseKey k = .error .valueError := by
   unfold State.parseKey
   simp only [hm]
   split
   · rfl
-  · simp [Cfgable.mightHave, hin, hno]
+  · simp [Cfgable.byKeyword, hin, hno]
+
+/-- A positional-only parameter cannot be bound (D56): Gin supplies values by keyword, so the signature cannot accept
+    one for it — unless the callable takes `**kwargs`, where the name lands. Every binding path goes through
+    `parseKey`, so this holds for string keys, tuple keys, config text, blocks and finalize hooks alike. -/
+theorem positional_only_not_bindable (st : State) (k : Key) (full : Sel) (e : Entry)
+    (hm : st.registry.getMatch k.sel = .one full e) (hin : e.cfg.innerSig = none)
+    (hkw : e.cfg.sig.varkw = false)
+    (hpo : k.arg ∈ e.cfg.sig.args.take e.cfg.sig.posOnly)
+    (hnd : e.cfg.sig.allArgs.Nodup) : st.parseKey k = .error .valueError := by
+  unfold State.parseKey
+  simp only [hm]
+  split
+  · rfl
+  · have hno : e.cfg.byKeyword k.arg = false := by
+      simp only [Cfgable.byKeyword, hin, Option.getD_none, Sig.byKeyword, hkw, Bool.false_or, Sig.kwNames]
+      rw [Bool.eq_false_iff]
+      intro hc
+      simp only [List.contains_iff_mem, List.mem_append] at hc
+      have hsplit : e.cfg.sig.allArgs =
+          e.cfg.sig.args.take e.cfg.sig.posOnly ++ (e.cfg.sig.args.drop e.cfg.sig.posOnly ++ e.cfg.sig.kwonlyNames) := by
+        simp [Sig.allArgs, ← List.append_assoc, List.take_append_drop]
+      rw [hsplit] at hnd
+      exact (List.nodup_append.1 hnd).2.2 _ hpo _ (List.mem_append.2 hc) rfl
+    simp [hno]
 
 /-! Non-vacuity. -/
 def demoDeco : State :=
